@@ -19,6 +19,11 @@ def ddl_for(gen, schema_idx):
     f = (SCHEMA_FILES_V2 if gen == 2 else SCHEMA_FILES_V1)[schema_idx]
     return [s for s in extract_ddl(os.path.join(driver.REPO, 'src/djinterop/engine/schema', f)) if s.lstrip().upper().startswith('CREATE')]
 
+def seed_for(gen, schema_idx):
+    """the literal (parameter-free) INSERT statements of the creator: rows every created library starts with"""
+    f = (SCHEMA_FILES_V2 if gen == 2 else SCHEMA_FILES_V1)[schema_idx]
+    return [s for s in extract_ddl(os.path.join(driver.REPO, 'src/djinterop/engine/schema', f)) if s.lstrip().upper().startswith('INSERT') and '?' not in s]
+
 # ---- running the model outside the executor (concrete values only)
 class _FakeEng:
     def __init__(s): s.models = {}
